@@ -30,6 +30,45 @@ class HarnessError(Exception):
     pass
 
 
+class SpinDetected(BaseException):
+    """raised inside a controlled thread that executes a very long stretch of library code without ever reaching a
+    scheduling point (a busy loop with no blocking call): under the baton discipline nobody else could ever run"""
+
+
+SPIN_LIMIT = 3_000_000          # loop back-edges / function entries in bromelia code within one scheduling quantum
+_SPIN = {"installed": False, "sched": None}
+SPIN_TOOL_ID = 5
+
+
+def _install_spin_monitor(prefix):
+    if _SPIN["installed"] or not hasattr(sys, "monitoring"):
+        return
+    mon = sys.monitoring
+    try:
+        mon.use_tool_id(SPIN_TOOL_ID, "verif-spin")
+    except ValueError:
+        return
+
+    def on_jump(code, *a):
+        if not code.co_filename.startswith(prefix):
+            return mon.DISABLE
+        s = _SPIN["sched"]
+        if s is None or s.in_sched or s.killing:
+            return
+        cur = s.current
+        if cur is None or cur.real is not _rt.current_thread():
+            return
+        s.quantum += 1
+        if s.quantum > SPIN_LIMIT:
+            s.quantum = 0
+            s.spins.append(cur.name)
+            raise SpinDetected(f"{cur.name} executed {SPIN_LIMIT} jumps in {code.co_name} without reaching a scheduling point")
+
+    mon.register_callback(SPIN_TOOL_ID, mon.events.JUMP, on_jump)
+    mon.set_events(SPIN_TOOL_ID, mon.events.JUMP)
+    _SPIN["installed"] = True
+
+
 class CT:
     __slots__ = ("id", "name", "sem", "state", "pred", "deadline", "wake", "real", "exc", "last_run", "steps", "blocked_on", "daemon")
 
@@ -75,6 +114,11 @@ class Scheduler:
         # targeted preemption: [thread name, point kind, nth visit, release predicate, max virtual delay, visits so far]
         self.holds = []
         self.holds_taken = 0
+        self.quantum = 0            # library jumps executed since the last scheduling point (spin detection)
+        self.spins = []
+        if trace_prefix:
+            _install_spin_monitor(trace_prefix if trace_prefix.endswith("/") else trace_prefix.rsplit("/", 1)[0] + "/")
+        _SPIN["sched"] = self
 
     # ------------------------------------------------------------------ threads
     def register_driver(self, name="driver"):
@@ -184,6 +228,7 @@ class Scheduler:
             self.in_sched = False
 
     def _point(self, cur, kind, pred, timeout, line):
+        self.quantum = 0
         if self.holds and not self.killing and not kind.startswith("held:"):
             for h in self.holds:
                 if h[0] == cur.name and h[1] == kind:
@@ -217,6 +262,7 @@ class Scheduler:
         nxt.sem.release()
         cur.sem.acquire()
         self.in_sched = True
+        self.quantum = 0
         if self.killing and cur is not self.driver:
             raise Killed()
         return cur.wake
